@@ -1,11 +1,122 @@
-(* Proofs/C19Top.v - C19: top-level lemmas behind Properties/C19.v *)
-From Coq Require Import List Arith Bool Lia.
-From ReqV Require Import Model.Settings Gen.CloneTable Proofs.SettingsHeap Proofs.SettingsValue.
+(* Proofs/C19Top.v - C19: top-level lemmas behind Properties/C19.v: the value-model facts of
+   Proofs/SettingsValue.v transferred to the reference-heap model (the one Model/C19Run.v evaluates
+   on the real library's observations) by the refinement theorem of Proofs/SettingsSim.v. *)
+From Coq Require Import List Arith Bool Lia String.
+From ReqV Require Import Model.Settings Gen.CloneTable Proofs.SettingsHeap Proofs.SettingsValue Proofs.SettingsSim.
 Import ListNotations.
 
 Lemma gen_tbl_deep : gen_tbl = deep_tbl.
 Proof. reflexivity. Qed.
 
+(* ---------- field inventories of the three Clone functions (regenerated from the source) ---------- *)
+Definition covered (have : list string) (fields : list string) : bool :=
+  forallb (fun f => existsb (String.eqb f) have) fields.
+
+(* connection pools, locks, per-run state: a clone starts with its own zero values;
+   t2/t3/wrappedRoundTrip are rebuilt below the literal *)
+Definition transport_runtime_fields : list string :=
+  ["idleMu"; "closeIdle"; "idleConn"; "idleConnWait"; "idleLRU"; "reqMu"; "reqCanceler"; "connsPerHostMu";
+   "connsPerHost"; "connsPerHostWait"; "dialsInProgress"; "altSvcJar"; "pendingAltSvcs"; "pendingAltSvcsMu";
+   "t2"; "t3"; "wrappedRoundTrip"]%string.
+(* no setter of package req writes these; pool state *)
+Definition t2_unset_fields : list string :=
+  ["DialTLS"; "ConnPool"; "IdleConnTimeout"; "CountError"; "connPoolOnce"; "connPoolOrDef"]%string.
+(* copied into a fresh http.Client whose Transport and Jar are then re-pointed *)
+Definition client_ref_special : list string := ["httpClient"]%string.
+(* Options.Clone: TLSClientConfig and Dump are cloned; ProxyConnectHeader (no in-place setter) stays shared *)
+Definition options_ref_fields : list string := ["TLSClientConfig"; "ProxyConnectHeader"; "Dump"]%string.
+
+Lemma clone_field_inventory :
+  covered (gen_transport_clone_fields ++ transport_runtime_fields) gen_transport_fields = true /\
+  covered (gen_t2_clone_fields ++ t2_unset_fields) gen_t2_fields = true /\
+  covered (gen_client_deep_fields ++ client_ref_special) gen_client_ref_fields = true /\
+  gen_options_ref_fields = options_ref_fields.
+Proof. repeat split; reflexivity. Qed.
+
+(* ---------- from the value model to the heap model ---------- *)
+Lemma vrun_snoc p o vs : vrun (p ++ [o]) vs = vstep (vrun p vs) o.
+Proof. unfold vrun. now rewrite fold_left_app. Qed.
+
+Lemma view_run grow p id : Forall op_nojar p ->
+  view (run grow deep_tbl p init_state) id = vget id (vrun p []).
+Proof. intros F. now rewrite view_abs, heap_refines_value. Qed.
+
+Lemma probe_run grow p c : Forall op_nojar p ->
+  probe (run grow deep_tbl p init_state) c = vprobe (vrun p []) c.
+Proof. intros F. unfold probe, vprobe. now rewrite view_run. Qed.
+
+Lemma exec_run grow p r : Forall op_nojar p ->
+  exec (run grow deep_tbl p init_state) r = vexec (vrun p []) r.
+Proof.
+  intros F. unfold exec, vexec. rewrite view_run by auto.
+  destruct (vget (OR r) (vrun p [])); auto. now rewrite view_run.
+Qed.
+
+Lemma nojar_snoc p o : Forall op_nojar (p ++ [o]) -> Forall op_nojar p.
+Proof. intros F. apply Forall_app in F. tauto. Qed.
+
+Lemma h_request_scope grow p r s id :
+  Forall op_nojar (p ++ [OSet (OR r) s]) -> id <> OR r ->
+  view (run grow gen_tbl (p ++ [OSet (OR r) s]) init_state) id = view (run grow gen_tbl p init_state) id.
+Proof.
+  intros F N. rewrite gen_tbl_deep, !view_run, vrun_snoc; eauto using nojar_snoc. now apply v_request_scope.
+Qed.
+
+Lemma h_request_scope_self grow p r s vr :
+  Forall op_nojar (p ++ [OSet (OR r) s]) -> view (run grow gen_tbl p init_state) (OR r) = Some vr ->
+  view (run grow gen_tbl (p ++ [OSet (OR r) s]) init_state) (OR r) = Some (vapply vr s).
+Proof.
+  intros F. rewrite gen_tbl_deep, !view_run, vrun_snoc; eauto using nojar_snoc. apply v_request_scope_self.
+Qed.
+
+Lemma h_client_scope_probe grow p c s vc :
+  Forall op_nojar (p ++ [OSet (OC c) s]) -> view (run grow gen_tbl p init_state) (OC c) = Some vc ->
+  probe (run grow gen_tbl (p ++ [OSet (OC c) s]) init_state) c = Some (describe (vapply vc s) (vnew_req c (vapply vc s))).
+Proof.
+  intros F. rewrite gen_tbl_deep, probe_run, view_run, vrun_snoc; eauto using nojar_snoc. apply v_client_scope_probe.
+Qed.
+
+Lemma h_client_scope_exec grow p c s vc r vr :
+  Forall op_nojar (p ++ [OSet (OC c) s]) ->
+  view (run grow gen_tbl p init_state) (OC c) = Some vc -> view (run grow gen_tbl p init_state) (OR r) = Some vr ->
+  v_par vr = c ->
+  exec (run grow gen_tbl (p ++ [OSet (OC c) s]) init_state) r = Some (describe (vapply vc s) vr).
+Proof.
+  intros F. rewrite gen_tbl_deep, exec_run, !view_run, vrun_snoc; eauto using nojar_snoc. apply v_client_scope_exec.
+Qed.
+
+Lemma h_client_scope_others grow p c s id :
+  Forall op_nojar (p ++ [OSet (OC c) s]) -> id <> OC c ->
+  view (run grow gen_tbl (p ++ [OSet (OC c) s]) init_state) id = view (run grow gen_tbl p init_state) id.
+Proof.
+  intros F N. rewrite gen_tbl_deep, !view_run, vrun_snoc; eauto using nojar_snoc. now apply v_client_scope_others.
+Qed.
+
+Lemma h_clone_initially_equal grow p src dst vc :
+  Forall op_api p -> Forall op_nojar p -> view (run grow gen_tbl p init_state) (OC src) = Some vc ->
+  exists vk, view (run grow gen_tbl (p ++ [OClone src dst]) init_state) (OC dst) = Some vk /\
+    (forall r, describe vk r = describe (vset_jar vc (if v_fact vc then Some [] else v_jar vc) (v_fact vc)) r) /\
+    (forall id, id <> OC dst ->
+       view (run grow gen_tbl (p ++ [OClone src dst]) init_state) id = view (run grow gen_tbl p init_state) id).
+Proof.
+  intros A F. rewrite gen_tbl_deep. rewrite view_run by auto. intros V.
+  assert (F' : Forall op_nojar (p ++ [OClone src dst])) by (apply Forall_app; split; auto; repeat constructor).
+  exists (vclone vc). split; [|split].
+  - rewrite view_run, vrun_snoc by auto. cbn [vstep]. rewrite V. apply aget_aset_eq.
+  - intros r. apply v_clone_initially_equal.
+    apply (clients_ok_run p [] clients_ok_nil A src vc V).
+  - intros id N. rewrite !view_run, vrun_snoc by auto. apply vstep_other. simpl. congruence.
+Qed.
+
+Lemma h_noninterference grow p R :
+  Forall op_nojar p -> forall id, In id R ->
+  view (run grow gen_tbl p init_state) id = view (run grow gen_tbl (fst (pslice p R)) init_state) id.
+Proof.
+  intros F id Hid. rewrite gen_tbl_deep, !view_run; auto using slice_sub.
+  now apply v_noninterference.
+Qed.
+
+(* ---------- the code as pinned ---------- *)
 Definition witness : list op :=
   [ONewClient 0; OSet (OC 0) (SWrap [1;2;3]); OClone 0 1; OSet (OC 0) (SWrap [4]);
    OSet (OC 1) (SWrap [5]); OClone 0 2].
@@ -21,8 +132,28 @@ Proof.
   vm_compute. intros E. inversion E.
 Qed.
 
+(* deep copies everywhere, but the cloned Dumper not wired to the clone's dumpOptions (as pinned) *)
+Definition unlinked_tbl : ctbl :=
+  {| t_sl := t_sl deep_tbl; t_mp := t_mp deep_tbl; t_rt := true; t_scal := SCAL_KEYS;
+     t_jar := true; t_dopt := true; t_dumper := true; t_link := false; t_tls := true |}.
+Definition witness_dump : list op :=
+  [ONewClient 0; OSet (OC 0) (SDumpEnable [ESet 0 2]); OClone 0 1; OSet (OC 1) (SDumpEnable [ESet 2 0; ESet 4 0])].
+
+Lemma pinned_dump_refuted :
+  Forall op_api witness_dump /\ Forall op_nojar witness_dump /\
+  probe (run go_grow8 unlinked_tbl witness_dump init_state) 1 <> vprobe (vrun witness_dump []) 1.
+Proof.
+  split; [repeat constructor|]. split; [repeat constructor; unfold setter_nojar; congruence|].
+  vm_compute. intros E. inversion E.
+Qed.
+
 Lemma nonvacuous_witness :
   Forall op_api witness /\ Forall op_nojar witness /\
-  probe (run go_grow8 deep_tbl witness init_state) 2 = vprobe (vrun witness []) 2 /\
-  fst (pslice witness [OC 1]) = [ONewClient 0; OSet (OC 0) (SWrap [1;2;3]); OClone 0 1; OSet (OC 1) (SWrap [5])].
-Proof. destruct witness_api as [A B]. split; [exact A|split; [exact B|]]. vm_compute. split; reflexivity. Qed.
+  probe (run go_grow8 gen_tbl witness init_state) 2 = vprobe (vrun witness []) 2 /\
+  fst (pslice witness [OC 1]) = [ONewClient 0; OSet (OC 0) (SWrap [1;2;3]); OClone 0 1; OSet (OC 1) (SWrap [5])] /\
+  probe (run go_grow8 gen_tbl witness_dump init_state) 1 = vprobe (vrun witness_dump []) 1 /\
+  probe (run go_grow8 gen_tbl witness_dump init_state) 1 <> probe (run go_grow8 gen_tbl witness_dump init_state) 0.
+Proof.
+  destruct witness_api as [A B]. split; [exact A|split; [exact B|]]. vm_compute.
+  repeat split; try reflexivity. intros E. inversion E.
+Qed.
